@@ -23,7 +23,8 @@ class C07(Prop):
             "contract); distinct = distinct cases")
     rule = (rule + "; a tenth of the cases trade a futures chain across a roll (C11's episodes, any reward); in 30% the "
             "track record's frames (NLV, costs, weights) are read after every step, as a progress log would, and "
-            "checked again at the end" + es.CONTEXT_RULE)
+            "checked again at the end; in 25% a request stamped like the last recorded one (needing no trade) is sent to "
+            "the broker after every step and refused as a duplicate" + es.CONTEXT_RULE)
     nontrivial_tags = {"spread", "fees", "rate", "latency", "margined", "delay", "chain-roll"}
     assumptions = [
         "the quote in force at an execution is the last history row stamped <= the recorded execution time",
@@ -50,6 +51,7 @@ class C07(Prop):
                     case["events"].append(["q", "RATE", t, rr, rr])
         n = len(grid) - 1
         case["read_frames"] = read_frames
+        case["resend_last"] = rng.random() < 0.25
         case["ops"] = [["reset", None, 0]] + es.gen_actions(rng, case, n)
         if rng.random() < 0.08:
             # a small account fully invested in one very expensive share, with a ticket fee: every step it sells a few
